@@ -57,6 +57,11 @@ CHECKS = {
    text="The reference RecvExpect/SendExpect of L4ProxyProto (which bytes are stripped, which addresses later matchers, handlers and placeholders must see; which header each upstream must receive first) is evaluated by TLC over every case of a bounded grammar (version x family incl. v1 UNKNOWN and v2 LOCAL x boundary addresses x allow-list relation x segmentation x bytes prefetched by an earlier matcher x payload; send: version x direct/behind a receiving handler x peers x payload). Each case is played against the real proxy_protocol handler inside a real route list (followed by a real remote_ip matcher and a recording handler) or the real proxy handler over loopback TCP, with headers produced and parsed by the harness's own codec, and TLC judges the observations (clauses Q1-Q7).",
    note="v2 TLVs are not generated (the library rejects them); receive cases use a scripted connection",
    technique="TLA+ reference of PROXY protocol receive/send semantics; exhaustive TLC case enumeration replayed on the real handlers; trace validation"),
+
+ "C08": dict(level="model_checking", design="5 C08, 4.3",
+   text="Cross-talk: TLC checks NoReuseWhileReferenced on the listener-wrapper / buffer-pool model (and that it fails with the pinned-commit behaviour); the real ListenerWrapper grid (C13's, incl. TLS-terminated hand-off, GOMAXPROCS 1..16, slow and absent consumers) is validated against clause L3 (a consumer reads only its own stream); N connections of four kinds run through ONE provisioned server (shared matchers, throttle total limiter, tee, echo) first alone then all at once, and TLC requires each connection's history (routes run, stream positions read, tee branch) to be identical and its reads to be its own stream in order; every selection policy is used by 8 goroutines at once. Data races: the same concurrent drivers (connections, listener, UDP bursts, two peers writing to one client) run under the Go race detector and any report with a repository frame is a violation.",
+   note="the race detector is a monitor attached to the conformance drivers (a TLA+ model cannot observe Go memory-model races) and only sees executed schedules; the OpenVPN matcher's shared digest is not exercised yet",
+   technique="TLA+ buffer-pool/listener model checked with TLC; trace validation of concurrent vs. solo executions; Go race detector on the concurrent drivers"),
 }
 NA = {
 }
